@@ -171,6 +171,14 @@ func init() {
 		Batches: [2]int{1, 8}, PerBatch: [2]int{32, 48}, Cases: [2]int{40, 200},
 		Rule:        "cases = (schema from the interop profile: routes combining path variables with query parameters, several services per file, service- and method-level headers, codec annotations) x RPC x pair {TS client -> Go server, Go client -> TS server, TS client -> TS server} x (request, response) values restricted to the JSON-representable contract form x header options (raw headers, typed helper properties on client and call options). The emitted .ts modules are imported in Node 22 (load failure = violation); the TS server runs behind node:http with a template-matching dispatcher over its RouteDescriptors; the Go server listens on loopback. Oracle: the handler of the same RPC saw the caller's request and the caller got the handler's response, compared through the message types on the contract JSON form; required headers are validated by the Go server, so a helper that sets another header name yields 400. Non-trivial = route with path variable and query parameter on a bodiless verb, or a typed header helper; distinct by (pair, request, response).",
 		Assumptions: append([]string{"Node's type stripping executes the emitted TypeScript; type errors are invisible (no tsc offline)", "values are limited to |int| <= 2^53 and finite floats: what JavaScript numbers can carry"}, commonAssumptions...)})
+	registerRuntime(&runtimeCheck{ID: "C07", Profile: schema.ProfileContract, Inner: []string{"c07"}, Prefix: "y", Prepare: prepareTS,
+		Batches: [2]int{1, 8}, PerBatch: [2]int{40, 48}, Cases: [2]int{80, 300},
+		Rule:        "cases = (schema from the contract profile) x RPC x value x source {JSON the generated Go server returns, contract-form request body the Go server accepts, object the generated TS server passes to its handler (request sent by the generated Go client)}. The declarations of *_client.ts and *_server.ts are read by a parser of exactly the emitted subset (interfaces, string-literal unions, object-literal unions, intersections, Record<>, arrays, ?, | null; method signatures of client classes) and the value must inhabit the declared type structurally, with every property on the wire declared at that position; the two plugins' declarations of the same type must be equal. Non-trivial = every judged value (distinct by wire text).",
+		Assumptions: append([]string{"no TypeScript compiler offline: inhabitation is decided by a structural checker over the emitted declaration subset; a declaration it cannot parse is an infrastructure error (exit 2), never a violation"}, commonAssumptions...)})
+	registerRuntime(&runtimeCheck{ID: "C03", Profile: schema.ProfileRoutes, Inner: []string{"c03"}, Prefix: "n", Prepare: prepareTS,
+		Batches: [2]int{1, 8}, PerBatch: [2]int{48, 64}, Cases: [2]int{25, 80},
+		Rule:        "cases = (service with base_path in {absent, /a, /a/, /, multi-segment} x method config {verb only, path only, both; absent/defaulted paths only while the recorded finding is closed} x templates with 0-3 variables first/last/adjacent x verbs x method-name shapes x Go package name != proto package tail) x RPC x request with every URL-bound field non-default. Observed dynamically: the Go client's request line and body (recording RoundTripper), the Go server's routing of that request (which handler ran), the TS client's request through an injected fetch, the TS server's RouteDescriptors, the OpenAPI operation. Oracle: same verb, same path, same query parameters, body fields in the same place, exactly one TS route (this RPC's) matches, OpenAPI template/verb/path parameters/requestBody agree. Non-trivial = RPC with a path variable or query parameter, or a defaulted config; distinct by request line.",
+		Assumptions: append([]string{"agreement is observed on concrete requests (values substituted), not by comparing template strings, so differences in spelling that route identically are not flagged"}, commonAssumptions...)})
 	registerRuntime(&runtimeCheck{ID: "C01", Profile: schema.ProfileTransport, Inner: []string{"c01"}, Prefix: "t",
 		Batches: [2]int{1, 10}, PerBatch: [2]int{64, 64}, Cases: [2]int{150, 500},
 		Rule:        "cases = (schema from the transport profile: verbs, base paths, 0-3 path variables of every URL kind, query parameters, body fields of every kind/cardinality, JSON-mapping annotations) x RPC x (request value incl. reserved URL characters, non-ASCII, numeric extremes; response value) x content type {application/json, application/x-protobuf, application/octet-stream} set per client or per call x base URL with/without trailing slash. The generated Go client calls the generated Go server through an in-memory transport. Oracle: exactly one handler call of the same RPC, norm(sent)==seen, norm(returned)==received (norm only for JSON). Non-trivial = URL-bound value with reserved/non-ASCII characters or >= 9 digits, or a non-JSON content type, or an annotated body; distinct by (RPC, content type, request, response).",
